@@ -33,6 +33,13 @@ MUTATORS = {
     "sort", "reverse", "update", "setdefault", "add", "discard", "rotate", "__setitem__", "__delitem__",
     "difference_update", "intersection_update", "symmetric_difference_update",
 }
+# calls that write interpreter- or process-wide state
+GLOBAL_STATE_CALLS = {
+    "sys.setrecursionlimit", "sys.setswitchinterval", "sys.settrace", "sys.setprofile", "random.seed", "random.setstate",
+    "os.chdir", "os.putenv", "os.unsetenv", "os.umask", "locale.setlocale", "warnings.simplefilter", "warnings.filterwarnings",
+    "gc.disable", "gc.enable", "gc.set_threshold", "signal.signal", "signal.alarm", "threading.setprofile", "threading.settrace",
+    "threading.stack_size", "re.purge", "regex.purge", "setrecursionlimit", "decimal.setcontext", "logging.basicConfig",
+}
 INPLACE_CALLS = {"random.shuffle": 0, "shuffle": 0, "heapq.heappush": 0, "heapq.heappop": 0, "heapq.heapify": 0, "bisect.insort": 0}
 FRESH_CALLS = {"list", "dict", "set", "deque", "tuple", "frozenset", "bytearray", "sorted", "defaultdict", "OrderedDict", "Counter", "collections.deque"}
 
@@ -84,6 +91,8 @@ def is_fresh_expr(e: ast.expr, fresh_names: Set[str], model: Model, mod: Any) ->
         r = model.resolve_expr_static(mod, e.func)
         if r is not None and r[0] == "class":
             return True  # a constructor call yields a new object
+        if r is not None and r[0] == "func" and fresh_returning(model, r[1]):
+            return True  # a package function every return of which hands out a new object
         if isinstance(e.func, ast.Attribute) and e.func.attr in ("copy", "items", "keys", "values") and f.split(".")[0] in fresh_names:
             return True
         return False
@@ -92,6 +101,24 @@ def is_fresh_expr(e: ast.expr, fresh_names: Set[str], model: Model, mod: Any) ->
     if isinstance(e, ast.IfExp):
         return is_fresh_expr(e.body, fresh_names, model, mod) and is_fresh_expr(e.orelse, fresh_names, model, mod)
     return False
+
+
+_FRESH_RET: Dict[str, Optional[bool]] = {}
+
+
+def fresh_returning(model: Model, fi: FuncInfo) -> bool:
+    """Every return statement of the (non-generator) function returns an object created in that call."""
+    key = f"{id(model)}:{fi.qualname}"
+    if key in _FRESH_RET:
+        return bool(_FRESH_RET[key])  # None while being computed: recursion is not fresh
+    _FRESH_RET[key] = None
+    ok = not fi.is_generator
+    if ok:
+        rets = [n for n in walk_own(fi.node) if isinstance(n, ast.Return)]
+        fl = fresh_locals(fi, model)
+        ok = bool(rets) and all(r.value is not None and is_fresh_expr(r.value, fl, model, fi.module) for r in rets)
+    _FRESH_RET[key] = ok
+    return ok
 
 
 def fresh_locals(fn: FuncInfo, model: Model) -> Set[str]:
@@ -258,7 +285,17 @@ def memo_sound(fn: FuncInfo, target: ast.Subscript, value: ast.expr) -> bool:
     return True
 
 
+_CENSUS_CACHE: Dict[Tuple[int, Tuple[str, ...]], List["WriteSite"]] = {}
+
+
 def census(model: Model, exclude_modules: Tuple[str, ...] = ("utils.", "cli", "__main__")) -> List[WriteSite]:
+    ck = (id(model), tuple(exclude_modules))
+    if ck not in _CENSUS_CACHE:
+        _CENSUS_CACHE[ck] = _census(model, tuple(exclude_modules))
+    return _CENSUS_CACHE[ck]
+
+
+def _census(model: Model, exclude_modules: Tuple[str, ...]) -> List[WriteSite]:
     init_only = init_only_methods(model)
     sites: List[WriteSite] = []
     for fi in model.functions.values():
@@ -331,6 +368,8 @@ def census(model: Model, exclude_modules: Tuple[str, ...] = ("utils.", "cli", "_
                     classify(f.value, ws, False)
                     sites.append(ws)
                 fname = ast.unparse(f)
+                if fname in GLOBAL_STATE_CALLS:
+                    sites.append(WriteSite(fi, n, "global", fname, "call", "shared", "writes interpreter-wide state that every other query, iterator and thread shares"))
                 if fname in INPLACE_CALLS and n.args:
                     a = n.args[INPLACE_CALLS[fname]]
                     ws = WriteSite(fi, n, "inplace", ast.unparse(a), fname)
@@ -403,6 +442,10 @@ def class_level_mutables(model: Model) -> List[Tuple[ClassInfo, str, ast.expr]]:
 CACHE_DECORATORS = ("lru_cache", "cache", "memoize", "cached")
 
 
+def _raw_decorators(fi: FuncInfo) -> List[str]:
+    return [ast.unparse(d) for d in fi.node.decorator_list]
+
+
 def cache_decorators(fi: FuncInfo) -> List[str]:
     return [d for d in fi.decorators if d.split(".")[-1].split("(")[0] in CACHE_DECORATORS]
 
@@ -422,6 +465,22 @@ def cache_key_problem(model: Model, fi: FuncInfo) -> Optional[str]:
 
     if fi.is_generator:
         return "the function is a generator: the cached object is a one-shot iterator that is exhausted after its first use"
+    # functools keys compare with == / hash: true == 1 == 1.0 and false == 0 == 0.0 are one key unless typed=True,
+    # and even typed=True does not look inside containers.  A parameter is safe when it can only hold strings.
+    typed = any("typed=True" in d.replace(" ", "") for d in _raw_decorators(fi) if d.split("(")[0].split(".")[-1] in CACHE_DECORATORS)
+    SAFE_ANN = {"str", "bytes", "Optional[str]", "Pattern[str]", "re.Pattern[str]", "Token", "TokenType", "ExpressionType"}
+    for a in fi.node.args.posonlyargs + fi.node.args.args + fi.node.args.kwonlyargs:
+        if a.arg in ("self", "cls") and fi.cls is not None:
+            continue
+        ann = ast.unparse(a.annotation).strip("'\"") if a.annotation is not None else None
+        if ann in SAFE_ANN:
+            continue
+        if typed and ann in ("int", "float", "bool", "Union[int, float]", "Union[int, str]"):
+            continue
+        return (
+            f"parameter '{a.arg}' ({ann or 'unannotated'}) may hold JSON values that compare equal without being the same value "
+            "(true / 1 / 1.0, false / 0): they share one cache entry" + ("" if typed else " (typed=True is not set)")
+        )
     # mutable module-level containers read by the body
     for n in ast.walk(fi.node):
         if isinstance(n, ast.Name) and isinstance(n.ctx, ast.Load):
@@ -440,3 +499,84 @@ def cache_key_problem(model: Model, fi: FuncInfo) -> Optional[str]:
     if missing:
         return f"reads self.{', self.'.join(missing)}, which __eq__/__hash__ of {fi.cls.name} do not cover: instances that agree on the compared attributes share one cache entry"
     return None
+
+
+_WRITTEN_CACHE: Dict[Tuple[int, str], Set[str]] = {}
+
+
+def written_attrs(model: Model, cls_qual: str) -> Set[str]:
+    ck = (id(model), cls_qual)
+    if ck in _WRITTEN_CACHE:
+        return _WRITTEN_CACHE[ck]
+    _WRITTEN_CACHE[ck] = r = _written_attrs(model, cls_qual)
+    return r
+
+
+def _written_attrs(model: Model, cls_qual: str) -> Set[str]:
+    """Attributes X of class instances such that a non-constructor method writes self.X / self.X[..] / self.X.mutator()."""
+    out: Set[str] = set()
+    ci = model.cls(cls_qual)
+    quals = {c.qualname for c in ci.mro()}
+    for w in census(model, exclude_modules=()):
+        if w.fn.cls is None or w.fn.cls.qualname not in quals:
+            continue
+        if w.cls in ("init", "fresh", "exception"):
+            continue
+        try:
+            e = ast.parse(w.receiver, mode="eval").body
+        except SyntaxError:
+            continue
+        chain: List[str] = []
+        while isinstance(e, (ast.Attribute, ast.Subscript)):
+            if isinstance(e, ast.Attribute):
+                chain.append(e.attr)
+            e = e.value
+        if isinstance(e, ast.Name) and e.id == "self":
+            if chain:
+                out.add(chain[-1])
+            elif w.kind in ("attr-store", "delete") and w.detail.isidentifier():
+                out.add(w.detail)
+    return out
+
+
+
+
+def written_attr_kinds(model: Model, cls_qual: str) -> Dict[str, str]:
+    """For each attribute of `written_attrs`: 'int' / 'bool' when every store anywhere in the class (constructor
+    included) writes an integer / a boolean, else 'unknown'."""
+    ci = model.cls(cls_qual)
+    names = written_attrs(model, cls_qual)
+    votes: Dict[str, List[str]] = {n: [] for n in names}
+
+    def kind_of(v: ast.expr, attr: str) -> str:
+        if isinstance(v, ast.Constant):
+            if isinstance(v.value, bool):
+                return "bool"
+            if isinstance(v.value, int):
+                return "int"
+            return "unknown"
+        if isinstance(v, ast.UnaryOp) and isinstance(v.op, (ast.USub, ast.UAdd)):
+            return kind_of(v.operand, attr)
+        if isinstance(v, ast.BinOp) and isinstance(v.op, (ast.Add, ast.Sub, ast.Mult)):
+            a, b = kind_of(v.left, attr), kind_of(v.right, attr)
+            return "int" if a == b == "int" else "unknown"
+        if isinstance(v, ast.Attribute) and isinstance(v.value, ast.Name) and v.value.id == "self" and v.attr == attr:
+            return "int"  # self.x = self.x + 1: decided by the other stores
+        return "unknown"
+
+    for c in ci.mro():
+        for m in c.methods.values():
+            for n in walk_own(m.node):
+                tgt = val = None
+                if isinstance(n, ast.Assign) and len(n.targets) == 1:
+                    tgt, val = n.targets[0], n.value
+                elif isinstance(n, ast.AnnAssign) and n.value is not None:
+                    tgt, val = n.target, n.value
+                elif isinstance(n, ast.AugAssign):
+                    tgt, val = n.target, n.value
+                if isinstance(tgt, ast.Attribute) and isinstance(tgt.value, ast.Name) and tgt.value.id == "self" and tgt.attr in votes:
+                    votes[tgt.attr].append(kind_of(val, tgt.attr))
+    out: Dict[str, str] = {}
+    for n, v in votes.items():
+        out[n] = v[0] if v and all(x == v[0] for x in v) and v[0] in ("int", "bool") else "unknown"
+    return out
